@@ -316,10 +316,13 @@ package otp
 // ---------------------------------------------------------------------------
 // enums, secrets
 
+// the documented string-to-enum fallbacks (unknown spellings mean 6 digits / SHA1)
+//@ macro digitsof(s) = s == "6" ? 6 : (s == "8" ? 8 : (s == "9" ? 9 : (s == "10" ? 10 : 6)))
+//@ macro algoof(s) = s == "SHA1" ? 0 : (s == "SHA256" ? 1 : (s == "SHA512" ? 2 : 0))
 //@ func otp.DigitsFromStr(digits) (r)
-//@   ensures r == (digits == "6" ? 6 : (digits == "8" ? 8 : (digits == "9" ? 9 : (digits == "10" ? 10 : 6))))
+//@   ensures r == digitsof(digits)
 //@ func otp.AlgorithmFromStr(algo) (r)
-//@   ensures r == (algo == "SHA1" ? 0 : (algo == "SHA256" ? 1 : (algo == "SHA512" ? 2 : 0)))
+//@   ensures r == algoof(algo)
 //@ func otp.(Algorithm).String(algo) (r)
 //@   ensures (algo == 0 ==> r == "SHA1") && (algo == 1 ==> r == "SHA256") && (algo == 2 ==> r == "SHA512") && (algo > 2 ==> r == "")
 
